@@ -507,3 +507,119 @@ func sortedKeys[V any](m map[string]V) []string {
 func typeStr(t types.Type) string { return shortName(types.TypeString(t, nil)) }
 
 var _ = strings.Contains
+
+// paramBoundField: if at every static call site of p's function the actual
+// argument for p is a load of one and the same (by name) struct field of the
+// caller's receiver, that field; else nil. This is how the parameters of the
+// primitive pipelines (tests, defaultVal, required, catch, ...) get their role.
+func (P *Prog) paramBoundField(p *ssa.Parameter) *types.Var {
+	fn := p.Parent()
+	idx := -1
+	for i, q := range fn.Params {
+		if q == p {
+			idx = i
+		}
+	}
+	if idx < 0 {
+		return nil
+	}
+	var found *types.Var
+	n := 0
+	for _, caller := range P.Funcs {
+		bad := false
+		eachInstr(caller, func(_ *ssa.BasicBlock, _ int, in ssa.Instruction) {
+			ci := callOf(in)
+			if ci == nil || ci.static != fn {
+				return
+			}
+			args := ci.args()
+			if idx >= len(args) {
+				bad = true
+				return
+			}
+			_, f := loadOfField(cv(args[idx]))
+			if f == nil {
+				bad = true
+				return
+			}
+			if found != nil && found.Name() != f.Name() {
+				bad = true
+				return
+			}
+			found = f
+			n++
+		})
+		if bad {
+			return nil
+		}
+	}
+	if n == 0 {
+		return nil
+	}
+	return found
+}
+
+// roleOf names the schema role of a value: the name of the schema-kind field
+// it was loaded from, directly or through a pipeline parameter bound to that
+// field at every call site ("" if none).
+func (P *Prog) roleOf(v ssa.Value) string {
+	v = cv(v)
+	if _, f := loadOfField(v); f != nil {
+		if _, isKindField := P.roles.kindFieldSet[f.Origin()]; isKindField {
+			return f.Name()
+		}
+		return ""
+	}
+	if p, ok := v.(*ssa.Parameter); ok {
+		if f := P.paramBoundField(p); f != nil {
+			if _, isKindField := P.roles.kindFieldSet[f.Origin()]; isKindField {
+				return f.Name()
+			}
+		}
+	}
+	return ""
+}
+
+// naturalLoops: for each back edge b->h (h dominates b) the loop body.
+type natLoop struct {
+	header *ssa.BasicBlock
+	body   map[*ssa.BasicBlock]bool
+}
+
+func naturalLoops(fn *ssa.Function) []natLoop {
+	byHeader := map[*ssa.BasicBlock]map[*ssa.BasicBlock]bool{}
+	for _, b := range fn.Blocks {
+		for _, h := range b.Succs {
+			if h.Dominates(b) {
+				body := byHeader[h]
+				if body == nil {
+					body = map[*ssa.BasicBlock]bool{h: true}
+					byHeader[h] = body
+				}
+				// blocks that reach b without passing h
+				var w []*ssa.BasicBlock
+				if !body[b] {
+					body[b] = true
+					w = append(w, b)
+				}
+				for len(w) > 0 {
+					x := w[len(w)-1]
+					w = w[:len(w)-1]
+					for _, p := range x.Preds {
+						if !body[p] {
+							body[p] = true
+							w = append(w, p)
+						}
+					}
+				}
+			}
+		}
+	}
+	var out []natLoop
+	for _, b := range fn.Blocks {
+		if body, ok := byHeader[b]; ok {
+			out = append(out, natLoop{b, body})
+		}
+	}
+	return out
+}
